@@ -188,10 +188,10 @@ structure CleanPair (p : Bytes × Bytes) : Prop where
   name_tok : ∀ b ∈ p.1, isTchar b = true ∧ isUpper b = false
   val_ok : ∀ b ∈ p.2, isValueByte b = true
 
-def lineOf (p : Bytes × Bytes) : Bytes := (p.1 ++ 58 :: 32 :: p.2) ++ [13]
+def lineOf (p : Bytes × Bytes) : Bytes := (p.1 ++ 58 :: p.2) ++ [13]
 
 def renderPairs (ps : List (Bytes × Bytes)) : Bytes :=
-  ps.flatMap (fun p => p.1 ++ [58, 32] ++ p.2 ++ [13, 10])
+  ps.flatMap (fun p => p.1 ++ [58] ++ p.2 ++ [13, 10])
 
 theorem splitLF_renderPairs (ps : List (Bytes × Bytes)) (h : ∀ p ∈ ps, CleanPair p) :
     splitLF (renderPairs ps) = ps.map lineOf ++ [[]] := by
@@ -206,12 +206,10 @@ theorem splitLF_renderPairs (ps : List (Bytes × Bytes)) (h : ∀ p ∈ ps, Clea
     · intro b hb
       simp only [lineOf, List.mem_append, List.mem_cons, List.not_mem_nil, or_false] at hb
       have d1 : ((58 : UInt8).toNat == 10) = false := by decide
-      have d2 : ((32 : UInt8).toNat == 10) = false := by decide
       have d3 : ((13 : UInt8).toNat == 10) = false := by decide
-      rcases hb with (hb | rfl | rfl | hb) | rfl
+      rcases hb with (hb | rfl | hb) | rfl
       · have := (tchar_facts b (hp.name_tok b hb).1).1; simpa using this
       · exact d1
-      · exact d2
       · have := (valueByte_facts b (hp.val_ok b hb)).1; simpa using this
       · exact d3
 
@@ -255,14 +253,14 @@ theorem esStep_clean (n i : Nat) (st : EsState) (p : Bytes × Bytes) (hp : Clean
       { st with trailers := happend st.trailers (canonKey p.1) (trimWS p.2), prevKey := canonKey p.1 } := by
   obtain ⟨f1, f2, f3, f4, f5⟩ := clean_name_facts p hp
   have hl : (i + 1 == n) = false := by simp; omega
-  have e1 : lineOf p = (p.1 ++ 58 :: 32 :: p.2) ++ [13] := rfl
+  have e1 : lineOf p = (p.1 ++ 58 :: p.2) ++ [13] := rfl
   have g1 : (lineOf p).getLast? = some 13 := by rw [e1, List.getLast?_concat]
-  have g2 : (lineOf p).dropLast = p.1 ++ 58 :: 32 :: p.2 := by rw [e1, List.dropLast_concat]
+  have g2 : (lineOf p).dropLast = p.1 ++ 58 :: p.2 := by rw [e1, List.dropLast_concat]
   have g3 : (lineOf p).isEmpty = false := by simp [lineOf]
-  have g4 : (p.1 ++ 58 :: 32 :: p.2).isEmpty = false := by simp
-  have g5 := splitColon_append p.1 (32 :: p.2) f5
+  have g4 : (p.1 ++ 58 :: p.2).isEmpty = false := by simp
+  have g5 := splitColon_append p.1 p.2 f5
   have g6 := valid_trim p.2 hp.val_ok
-  simp only [esStep, hl, g1, g2, g3, g4, g5, f1, f2, f3, f4, g6, trimWS_cons_space, Bool.false_and,
+  simp only [esStep, hl, g1, g2, g3, g4, g5, f1, f2, f3, f4, g6, Bool.false_and,
     Bool.and_false, Bool.false_eq_true, if_false, Bool.not_false, Bool.true_and, beq_self_eq_true,
     Bool.not_true, if_true, bne_self_eq_false, List.append_nil, Bool.or_false, Bool.and_true]
 
@@ -356,7 +354,7 @@ open ConfModel.ServerTimeout (Bytes parseInt)
 /-! ### the reference server's own end-stream message -/
 
 def pairsOf (hs : Hdrs) : List (Bytes × Bytes) :=
-  hs.flatMap (fun nv => nv.2.map (fun v => (lowerASCII nv.1, v)))
+  hs.flatMap (fun nv => nv.2.map (fun v => (lowerASCII nv.1, 32 :: v)))
 
 theorem render_eq (hs : Hdrs) : renderTrailerBlock hs = renderPairs (pairsOf hs) := by
   unfold renderTrailerBlock renderPairs pairsOf
@@ -452,7 +450,10 @@ theorem clean_user (trailers : Hdrs) (ht : trailersOK trailers = true) :
   · intro b hb
     have := h4 v hv
     simp only [validFieldValue, List.all_eq_true] at this
-    exact this b hb
+    simp only [List.mem_cons] at hb
+    rcases hb with rfl | hb
+    · decide
+    · exact this b hb
   · simpa using h3
 
 theorem printable_value (m : Bytes) : ∀ b ∈ percentEncode m, isValueByte b = true := by
@@ -463,7 +464,7 @@ theorem printable_value (m : Bytes) : ∀ b ∈ percentEncode m, isValueByte b =
   simp [isValueByte]; omega
 
 def detPairs (db : Option Bytes) : List (Bytes × Bytes) :=
-  match db with | some d => [(bs "grpc-status-details-bin", d)] | none => []
+  match db with | some d => [(bs "grpc-status-details-bin", 32 :: d)] | none => []
 
 def detVals (db : Option Bytes) : List Bytes := match db with | some d => [d] | none => []
 
@@ -750,5 +751,167 @@ theorem status_flags_core (dec : Bytes → DetailsDec) (st ms ds : List Bytes) :
     obtain ⟨f, hf, hm⟩ := details_flags dec (statusPart st).2 (messagePart (statusPart st).2 ms).2 ds alts
       (by rw [e2, e1]; exact h)
     exact ⟨f, hf, Or.inr hm⟩
+
+end ConfModel.WireChecks
+
+namespace ConfModel.WireChecks
+open ConfModel.WireChecksSpec
+open ConfModel.ServerTimeout (Bytes parseInt)
+
+/-! ### every well-formed block is a sequence of clean lines -/
+
+def joinCRLF (ls : List Bytes) : Bytes := ls.flatMap (· ++ [13, 10])
+
+theorem crlfLines_sound : ∀ (s acc : Bytes) (cr : Bool) (ls : List Bytes),
+    crlfLines s acc cr = some ls →
+    acc.reverse ++ (if cr then [13] else []) ++ s = joinCRLF ls := by
+  intro s
+  induction s with
+  | nil =>
+    intro acc cr ls h
+    simp only [crlfLines] at h
+    by_cases hc : (acc.isEmpty && !cr) = true
+    · simp only [hc, if_true, Option.some.injEq] at h
+      subst h
+      simp only [Bool.and_eq_true, List.isEmpty_iff, Bool.not_eq_true'] at hc
+      simp [hc.1, hc.2, joinCRLF]
+    · simp [hc] at h
+  | cons c t ih =>
+    intro acc cr ls h
+    rw [crlfLines] at h
+    cases cr with
+    | true =>
+      simp only [if_true] at h
+      by_cases h10 : (c.toNat == 10) = true
+      · simp only [h10, if_true, Option.map_eq_some_iff] at h
+        obtain ⟨ls', hl, rfl⟩ := h
+        have := ih [] false ls' hl
+        have hc : c = 10 := UInt8.toNat_inj.1 (by simpa using h10)
+        subst hc
+        simp only [List.reverse_nil, Bool.false_eq_true, if_false, List.append_nil, List.nil_append] at this
+        simp [joinCRLF, this]
+      · simp only [h10, Bool.false_eq_true, if_false] at h
+        by_cases h13 : (c.toNat == 13) = true
+        · simp only [h13, if_true] at h
+          have := ih (13 :: acc) true ls h
+          have hc : c = 13 := UInt8.toNat_inj.1 (by simpa using h13)
+          subst hc
+          simpa using this
+        · simp only [h13, Bool.false_eq_true, if_false] at h
+          have := ih (c :: 13 :: acc) false ls h
+          simpa using this
+    | false =>
+      simp only [Bool.false_eq_true, if_false] at h
+      by_cases h13 : (c.toNat == 13) = true
+      · simp only [h13, if_true] at h
+        have := ih acc true ls h
+        have hc : c = 13 := UInt8.toNat_inj.1 (by simpa using h13)
+        subst hc
+        simpa using this
+      · simp only [h13, Bool.false_eq_true, if_false] at h
+        have := ih (c :: acc) false ls h
+        simpa using this
+
+theorem splitColon_spec : ∀ (l k v : Bytes), splitColon l = (k, some v) →
+    l = k ++ 58 :: v ∧ ∀ b ∈ k, (b.toNat == 58) = false := by
+  intro l
+  induction l with
+  | nil => intro k v h; simp [splitColon] at h
+  | cons c cs ih =>
+    intro k v h
+    rw [splitColon] at h
+    by_cases h58 : (c.toNat == 58) = true
+    · simp only [h58, if_true, Prod.mk.injEq, Option.some.injEq] at h
+      obtain ⟨rfl, rfl⟩ := h
+      have hc : c = 58 := UInt8.toNat_inj.1 (by simpa using h58)
+      subst hc; simp
+    · simp only [h58, Bool.false_eq_true, if_false] at h
+      cases hs : splitColon cs with
+      | mk k' v' =>
+        simp only [hs, Prod.mk.injEq] at h
+        obtain ⟨rfl, rfl⟩ := h
+        obtain ⟨e, hk⟩ := ih k' v hs
+        refine ⟨by rw [e]; simp, ?_⟩
+        intro b hb
+        simp only [List.mem_cons] at hb
+        rcases hb with rfl | hb
+        · simpa using h58
+        · exact hk b hb
+
+theorem mem_takeWhile_sat {α} (p : α → Bool) : ∀ (l : List α) (b : α), b ∈ l.takeWhile p → p b = true := by
+  intro l
+  induction l with
+  | nil => intro b h; simp at h
+  | cons a t ih =>
+    intro b h
+    rw [List.takeWhile_cons] at h
+    by_cases ha : p a = true
+    · simp only [ha, if_true, List.mem_cons] at h
+      rcases h with rfl | h
+      · exact ha
+      · exact ih b h
+    · simp [ha] at h
+
+theorem mem_trim_or_ws (v : Bytes) (b : UInt8) (h : b ∈ v) : isWS b = true ∨ b ∈ trimWS v := by
+  rw [← List.takeWhile_append_dropWhile (p := isWS) (l := v), List.mem_append] at h
+  rcases h with h | h
+  · exact Or.inl (mem_takeWhile_sat _ _ _ h)
+  · have h' : b ∈ (v.dropWhile isWS).reverse := List.mem_reverse.2 h
+    rw [← List.takeWhile_append_dropWhile (p := isWS) (l := (v.dropWhile isWS).reverse), List.mem_append] at h'
+    rcases h' with h' | h'
+    · exact Or.inl (mem_takeWhile_sat _ _ _ h')
+    · exact Or.inr (by unfold trimWS; exact List.mem_reverse.2 h')
+
+theorem fieldLine_clean (l : Bytes) (h : fieldLineOK l = true) :
+    ∃ p : Bytes × Bytes, l = p.1 ++ 58 :: p.2 ∧ CleanPair p := by
+  unfold fieldLineOK at h
+  cases hs : splitColon l with
+  | mk k r =>
+    cases r with
+    | none => simp [hs] at h
+    | some v =>
+      simp only [hs, Bool.and_eq_true, lowerToken, Bool.not_eq_true', List.all_eq_true] at h
+      obtain ⟨⟨hne, htok⟩, hv⟩ := h
+      obtain ⟨e, _⟩ := splitColon_spec l k v hs
+      refine ⟨(k, v), e, ⟨?_, ?_, ?_⟩⟩
+      · intro hk
+        have hk' : k = [] := hk
+        simp [hk'] at hne
+      · intro b hb
+        have := htok b hb
+        simpa using this
+      · intro b hb
+        rcases mem_trim_or_ws v b hb with hw | ht
+        · simp [isWS] at hw; simp [isValueByte]; omega
+        · simp only [validFieldValue, List.all_eq_true] at hv
+          exact hv b ht
+
+theorem block_clean (s : Bytes) (h : blockOK s = true) : (examineGRPCEndStream s).1 = [] := by
+  unfold blockOK at h
+  cases hl : crlfLines s [] false with
+  | none => simp [hl] at h
+  | some ls =>
+    simp only [hl, List.all_eq_true] at h
+    have hs := crlfLines_sound s [] false ls hl
+    simp only [List.reverse_nil, Bool.false_eq_true, if_false, List.append_nil, List.nil_append] at hs
+    -- choose the clean pair of every line
+    have hex : ∃ ps : List (Bytes × Bytes), ls = ps.map (fun p => p.1 ++ 58 :: p.2) ∧ ∀ p ∈ ps, CleanPair p := by
+      clear hl hs
+      induction ls with
+      | nil => exact ⟨[], rfl, by simp⟩
+      | cons l t ih =>
+        obtain ⟨p, hp, hc⟩ := fieldLine_clean l (h l (by simp))
+        obtain ⟨ps, hps, hcs⟩ := ih (fun x hx => h x (by simp [hx]))
+        refine ⟨p :: ps, by simp [hp, hps], ?_⟩
+        intro q hq
+        simp only [List.mem_cons] at hq
+        rcases hq with rfl | hq
+        · exact hc
+        · exact hcs q hq
+    obtain ⟨ps, hps, hclean⟩ := hex
+    have : s = renderPairs ps := by
+      rw [hs, hps]
+      simp [joinCRLF, renderPairs, List.flatMap_map, List.append_assoc]
+    rw [this, examine_renderPairs ps hclean]
 
 end ConfModel.WireChecks
